@@ -76,7 +76,7 @@ type Params struct {
 	Workers   int // mbapp workers / GOMAXPROCS seen by constructors
 	Channel   any // mux channel for single-channel stacks
 	AllowAll  bool
-	ManyParts bool // lengths biased to the part-count boundaries of the fragmenting layers
+	ManyParts bool                    // lengths biased to the part-count boundaries of the fragmenting layers
 	Whitelist func(from, to int) bool // wlswarm / p2pke whitelist by node index
 }
 
